@@ -228,6 +228,7 @@ class Frame:
         self.parent = parent  # enclosing frame (closures)
         self.globals_decl = set()
         self.nonlocal_decl = set()
+        self.partial = False  # a region / one loop iteration: live-in locals come from the contract's setup
 
     def lookup(self, name):
         f = self
@@ -1046,6 +1047,7 @@ class Interp:
         if k is None:
             raise Unsupported(f"start point not found in {fnode.name}: {start_at!r}")
         frame = Frame(mod, fnode.name, None)
+        frame.partial = True
         frame.locals.update(local_values)
         key = f"{mod.__name__}:{live.__qualname__}"
         self.functions_entered[key] = self.functions_entered.get(key, 0) + 1
@@ -1079,6 +1081,7 @@ class Interp:
         if len(found) != 1:
             raise Unsupported(f"loop {header!r} containing {contains!r}: {len(found)} matches in {fnode.name}")
         frame = Frame(mod, fnode.name, None)
+        frame.partial = True
         frame.locals.update(local_values)
         key = f"{mod.__name__}:{live.__qualname__}"
         self.functions_entered[key] = self.functions_entered.get(key, 0) + 1
@@ -1855,6 +1858,10 @@ class Interp:
             return self.reflect(g[name], name)
         if hasattr(builtins, name):
             return self.reflect(getattr(builtins, name), name)
+        if frame.partial:
+            # not a defect of the code: the region reads a local that is assigned outside it and that the
+            # contract does not provide (e.g. after a refactoring hoisted a computation out of the region)
+            raise Unsupported(f"the region reads local `{name}` that the contract's setup does not provide")
         self.raise_exc(NameError, name, node)
 
     def eval_Name(self, e, frame):
